@@ -50,6 +50,11 @@ def check(repo: Repo) -> Result:
     label_scale(repo, res)
     decision_tables(repo, res)
     guards(repo, res)
+    from rules import c11
+    from rules.common import share
+
+    r6 = res.rule("C08-R6", "the point/difference rules recognise temperatures by identity (`dimensions is temperature`): every restoration route (pickle, copy, JSON) must hand back unyt's own dimension symbols, or restored readings are combined as plain numbers", floor=3)
+    share(res, r6, "C11", lambda t: t.__dict__.update(c11.check(repo).__dict__), ["C11-R1a"], want=lambda k: "temperature" in k, min_keys=3)
     return res
 
 
@@ -425,4 +430,5 @@ MUTANTS = [
     Mutant("diff-offset-allowed", AF, "diff_helper", "        if u.base_offset:", "        if False:", ("C08-R4",)),
     Mutant("twin-row-spelling", LUT, None, '("degC", (1.0, dimensions.temperature, -273.15,', '("degC", (1.0, dimensions.temperature, -2.7315e2,', (), benign=True),
     Mutant("mul-offset-from-dimensionless-side", UO, "Unit.__mul__", "            if u.dimensions in (temperature, angle) and self.is_dimensionless:\n                base_offset = u.base_offset", "            if u.dimensions in (temperature, angle) and self.is_dimensionless:\n                base_offset = self.base_offset", ("C08-R2",)),
+    Mutant("setstate-skips-fixer", ARR, "unyt_array.__setstate__", "lut = _correct_old_unit_registry(lut)", "lut = _correct_old_unit_registry(lut) if any(len(v) == 4 for v in lut.values()) else lut", ("C08-R6",)),
 ]
